@@ -36,9 +36,9 @@ pub fn describe(f: Fam, thorough: bool) -> &'static str {
         (Fam::Node, false) => "NODE(1) on 8 base bodies",
         (Fam::Node, true) => "NODE(2) on 8 base bodies",
         (Fam::Pred, false) => "PRED: EBNF(2,1,2) with 1 inserted ?1/?t/!1/#1",
-        (Fam::Pred, true) => "PRED: EBNF(2,1,2) with <=2, EBNF(3,1,2) with 1 inserted ?1/?t/!1/#1",
+        (Fam::Pred, true) => "PRED: EBNF(2,1,2) with <=2, EBNF(3,0,2) with 1 inserted ?1/?t/!1/#1",
         (Fam::Choice, false) => "CHOICE: one ordered choice in EBNF(3,0,2) with <=1 inserted ~, in two-rule EBNF(4,0,2), CHOICE-TAIL (choice with nullable last alternative at the end of a rule, 60 grammars)",
-        (Fam::Choice, true) => "CHOICE: one ordered choice in EBNF(3,0,2) with <=2 inserted ~/&/!1, EBNF(4,0,2) with <=1, CHOICE-TAIL",
+        (Fam::Choice, true) => "CHOICE: one ordered choice in EBNF(3,0,2) with <=1 inserted ~/&/!1 or <=2 inserted ~, in EBNF(4,0,2), CHOICE-TAIL",
         (Fam::Markers, false) => "MARKERS: two marker/creation pairs in every placement (crossing included) in `x: A B C A`",
         (Fam::Markers, true) => "MARKERS: two marker/creation pairs in every placement (crossing included) in `x: A B C A` and `x: A y C A`",
         (Fam::Parts, false) => "PARTS: EBNF(3,1,3) with every non-empty subset of non-start rules as parts",
@@ -75,7 +75,7 @@ pub fn family_of(f: Fam, thorough: bool) -> Vec<Grammar> {
         (Fam::Pred, false) => pred_family(&ebnf_bound(2, 1, 2, false), 1),
         (Fam::Pred, true) => {
             let mut v = pred_family(&ebnf_bound(2, 1, 2, false), 2);
-            v.extend(pred_family(&ebnf_bound(3, 1, 2, false), 1));
+            v.extend(pred_family(&ebnf_bound(3, 0, 2, false), 1));
             v
         }
         (Fam::Choice, false) => {
@@ -89,8 +89,9 @@ pub fn family_of(f: Fam, thorough: bool) -> Vec<Grammar> {
             v
         }
         (Fam::Choice, true) => {
-            let mut v = choice_family(&ebnf_bound(3, 0, 2, false), 2);
-            v.extend(choice_family(&ebnf_bound(4, 0, 2, false), 1));
+            let mut v = choice_family(&ebnf_bound(3, 0, 2, false), 1);
+            v.extend(choice_family_ops(&ebnf_bound(3, 0, 2, false), 2, &[vmodel::Rx::Commit]));
+            v.extend(choice_family(&ebnf_bound(4, 0, 2, false), 0));
             v.extend(choice_tail_family());
             v
         }
@@ -122,7 +123,7 @@ pub fn family(prop: &str, thorough: bool) -> (Vec<Grammar>, Vec<String>) {
     }
     if prop == "C11" {
         v.extend(names_family());
-        names.push("NAMES: 17 identifier-stressing names as rule, part, rename and creation names, all pairs of them".to_string());
+        names.push("NAMES: 17 identifier-stressing names as rule, part, rename and creation names, all pairs of them; EMPTY: empty-bodied rules as part / referenced rule, rules reachable only through an unused part".to_string());
     }
     let mut seen = std::collections::HashSet::new();
     v.retain(|g| seen.insert(g.clone()));
@@ -155,6 +156,28 @@ pub fn names_family() -> Vec<Grammar> {
                 ));
             }
         }
+    }
+    // EMPTY: empty-bodied rules in every role, and rules that are reachable only through an unused part
+    {
+        let mut g = grammar(2, vec![("s", false, Some(tok(0))), ("p", false, None)]);
+        g.parts = vec![1];
+        out.push(g); // unreferenced empty part
+        let mut g = grammar(2, vec![("s", false, Some(cat(vec![tok(0), rf(1)]))), ("p", false, None)]);
+        out.push(g.clone()); // referenced empty rule
+        g.parts = vec![1];
+        out.push(g); // referenced empty part
+        let mut g = grammar(
+            3,
+            vec![("s", false, Some(tok(0))), ("p", false, Some(cat(vec![rf(2), tok(1)]))), ("q", false, Some(star(tok(2))))],
+        );
+        g.parts = vec![1];
+        out.push(g); // q is reachable only through the unused part p
+        let mut g = grammar(
+            3,
+            vec![("s", false, Some(tok(0))), ("p", false, Some(cat(vec![tok(1), rf(2)]))), ("q", false, None)],
+        );
+        g.parts = vec![1];
+        out.push(g);
     }
     for r in ["error", "part"] {
         let mut g = grammar(2, vec![("s", false, Some(rf(1))), ("x", false, Some(cat(vec![tok(0), Rx::Rename(r.into()), tok(1)]))), ("p", false, Some(tok(1)))]);
